@@ -49,12 +49,53 @@ def histories(tier):
         out += [list(h) for h in itertools.product(kinds, repeat=4) if h[0] != "none"][::2]
     else:
         out += [["set_k", "none", "set_c", "none"], ["set_c", "set_k", "none", "none"]]
+    # the other stepping requests: run-steps (2 steps) and a stream the client abandons after its first step
+    out += [["steps2", "none"], ["set_k", "steps2", "none"], ["stream_abort", "none"], ["none", "stream_abort", "none"],
+            ["set_k", "stream_abort", "set_c", "none"], ["stream_abort", "steps2", "none"]]
     return out
+
+
+class _Resp(object):
+    def __init__(self, status_code, parsed):
+        self.status_code, self.parsed = status_code, parsed
+
+
+def body(r):
+    if hasattr(r, "parsed"):
+        return r.parsed
+    return scen.loads(r.data) if r.status_code == 200 else r.data.decode(errors="replace")
 
 
 def step_request(c, inst, i, kind, mode, env):
     if kind == "none":
         return c.post("/%s/run-step" % inst)
+    if kind == "steps2":
+        r = c.post("/%s/run-steps" % inst, data=json.dumps({"numberSteps": 2, "settings": {}}), content_type="application/json")
+        if r.status_code != 200:
+            return r
+        merged = {}
+        for one in scen.loads(r.data):
+            for mg, sc in (one or {}).items():
+                for sn, eqs in sc.items():
+                    for e, tv in eqs.items():
+                        merged.setdefault(mg, {}).setdefault(sn, {}).setdefault(e, {}).update(tv)
+        return _Resp(200, merged)
+    if kind == "stream_abort":
+        r = c.post("/%s/stream-steps" % inst, buffered=False)
+        if r.status_code != 200:
+            return r
+        it = iter(r.response)
+        try:
+            for ch in it:
+                ch = ch.decode() if isinstance(ch, bytes) else ch
+                if ch.lstrip(",").startswith("{"):
+                    break                                  # the first step arrived: the client goes away
+        finally:
+            close = getattr(r.response, "close", None) or getattr(it, "close", None)
+            if close:
+                close()
+            r.close()
+        return _Resp(200, "stream abandoned after its first step")
     name = "v%d" % i
     v = scen.sym_const(name) if mode == "sym" else float((env or {}).get(name, 2.0 + 0.75 * i))
     const = "k" if kind == "set_k" else "c"
@@ -90,7 +131,7 @@ def run_case(hist, k, mode, env=None, two_instances=False, start=START):
         after = []
         for i in range(k, len(hist)):
             r = step_request(c2, inst, i, hist[i], mode, env)
-            after.append((r.status_code, scen.loads(r.data) if r.status_code == 200 else r.data.decode(errors="replace")))
+            after.append((r.status_code, body(r)))
         # uninterrupted reference on a fresh server without any adapter
         app3 = BptkServer(__name__, factory)
         c3 = app3.test_client()
@@ -99,7 +140,7 @@ def run_case(hist, k, mode, env=None, two_instances=False, start=START):
         for i in range(len(hist)):
             r = step_request(c3, inst3, i, hist[i], mode, env)
             if i >= k:
-                ref.append((r.status_code, scen.loads(r.data) if r.status_code == 200 else r.data.decode(errors="replace")))
+                ref.append((r.status_code, body(r)))
         return after, ref
     finally:
         shutil.rmtree(d, ignore_errors=True)
@@ -256,7 +297,8 @@ def run(tier):
     from BPTK_Py.bptk import bptk
     from BPTK_Py.scenariorunners.sd_runner import SdRunner
     rep = harness.Report(PID, tier, "model_checking", MODULE)
-    rep.encoded(srv.BptkServer.__init__, srv.BptkServer._ensure_instance_exists, srv.InstanceManager.reconstruct_instance,
+    rep.encoded(srv.BptkServer.__init__, srv.BptkServer._run_step_resource, srv.BptkServer._run_steps_resource,
+                srv.BptkServer._stream_steps_resource, srv.BptkServer._ensure_instance_exists, srv.InstanceManager.reconstruct_instance,
                 bptk._set_state, SdRunner.run_scenario_step, esa.FileAdapter._save_instance, esa.FileAdapter._load_instance,
                 esa.FileAdapter._load_state, esa.ExternalStateAdapter.load_state)
     _G["timeout"] = 20 if tier == "quick" else 60
@@ -310,7 +352,7 @@ def run(tier):
         samples.append({"damaged_file": kind, "server_survives": r is None})
     rep.assume("crash = the server object is discarded between two requests and a new BptkServer is constructed on the same FileAdapter directory (plain mode)",
                "torn writes are modelled by outcome classes of the state file (%s); byte-exact truncation points are inside the C JSON decoder" % ", ".join(DAMAGE),
-               "histories <= %d steps, each step with a constant setting (k or c) or without settings; every crash point 0..N" % (3 if tier == "quick" else 4))
+               "histories <= %d requests, each a run-step with a constant setting (k or c) or without settings, a run-steps of 2 steps, or a stream-steps the client abandons after the first step; every crash point 0..N" % (3 if tier == "quick" else 4))
     rep.coverage.update({"states": len(tasks) + dmg, "transitions": max(1, counts["holds"]), "traces_validated_against_impl": len(rep.cands),
                          "samples": samples, "verdicts": counts, "exhaustive": True,
                          "explanation": "states = (session history, crash point) pairs + damaged-file classes",
